@@ -343,22 +343,11 @@ func evalTokList(c CaseTokList) Result {
 
 var illegalBytes = []byte{'@', '<', '>', '{', '}', '|', '^', '`', '#', '\\', 0x7f, 0x80, 0xff, 0x00, 0x01, 0x1f}
 
-func genCaseTokList(t *rapid.T) CaseTokList {
-	c := CaseTokList{Inject: -1, PCap: -1}
-	c.Entry = pick(t, "entry", "tok", "tok", "uriparams", "urihdrs")
-	var flags uint
-	switch c.Entry {
-	case "tok":
-		flags = genTokFlags(t)
-	case "uriparams":
-		flags = uint(pick(t, "upf", sipsp.POptTokURIParamF, sipsp.POptTokQmTermF, sipsp.POptTokSpTermF, sipsp.POptNoneF, sipsp.POptTokCommaTermF)) | uint(sipsp.POptParamSemiSepF)
-		c.PCap = pick(t, "pcap", -1, 0, 1, 2, 3, 10)
-	default:
-		flags = uint(pick(t, "uhf", sipsp.POptNoneF, sipsp.POptTokSpTermF, sipsp.POptTokCommaTermF)) | uint(sipsp.POptParamAmpSepF|sipsp.POptTokURIHdrF)
-		c.PCap = pick(t, "pcap", -1, 0, 1, 2, 3, 10)
-	}
-	flags &^= uint(sipsp.POptInputEndF)
-	l := genTokList(t, flags)
+// normaliseTokList applies the side conditions that make a drawn / enumerated list spec well formed for its
+// flags and terminator (bytes inside the documented set for the mode, terminators only where they are defined,
+// no whitespace that the whitespace-then-token terminator would take for the end of the list).
+func normaliseTokList(l TokListSpec) TokListSpec {
+	flags := l.Flags
 	sep, term := tokSepTerm(sipsp.POptFlags(flags))
 	pf := sipsp.POptFlags(flags)
 	// keep every byte inside the documented character set for this mode
@@ -444,6 +433,28 @@ func genCaseTokList(t *rapid.T) CaseTokList {
 			}
 		}
 	}
+	return l
+}
+
+func genCaseTokList(t *rapid.T) CaseTokList {
+	c := CaseTokList{Inject: -1, PCap: -1}
+	c.Entry = pick(t, "entry", "tok", "tok", "uriparams", "urihdrs")
+	var flags uint
+	switch c.Entry {
+	case "tok":
+		flags = genTokFlags(t)
+	case "uriparams":
+		flags = uint(pick(t, "upf", sipsp.POptTokURIParamF, sipsp.POptTokQmTermF, sipsp.POptTokSpTermF, sipsp.POptNoneF, sipsp.POptTokCommaTermF)) | uint(sipsp.POptParamSemiSepF)
+		c.PCap = pick(t, "pcap", -1, 0, 1, 2, 3, 10)
+	default:
+		flags = uint(pick(t, "uhf", sipsp.POptNoneF, sipsp.POptTokSpTermF, sipsp.POptTokCommaTermF)) | uint(sipsp.POptParamAmpSepF|sipsp.POptTokURIHdrF)
+		c.PCap = pick(t, "pcap", -1, 0, 1, 2, 3, 10)
+	}
+	flags &^= uint(sipsp.POptInputEndF)
+	l := genTokList(t, flags)
+	l = normaliseTokList(l)
+	sep, term := tokSepTerm(sipsp.POptFlags(flags))
+	pf := sipsp.POptFlags(flags)
 	c.L = l
 	c.Pre = genJunkPrefix(t)
 	if rapid.IntRange(0, 2).Draw(t, "chunked") == 0 {
@@ -614,4 +625,117 @@ func l2noSemi(txt []byte) []byte {
 		}
 	}
 	return out
+}
+
+// enumTokSpecs enumerates small list specs exhaustively (the same model-by-construction oracle as the generated
+// cases): lists of 0..2 items over {two names, empty item} x {no value, empty value, token, quoted value holding
+// delimiters} x every placement of a blank in the four whitespace slots (three kinds of whitespace for one-item
+// lists), 3-item lists without whitespace, under six option-flag sets, every terminator they define (three
+// blank kinds for whitespace-then-token), and the entry points that take those flags. allCuts: every two-step cut
+// of the text; otherwise one-shot and one cut in the middle.
+func enumTokSpecs(allCuts bool, shard, nshards int, emit func(CaseTokList) bool) {
+	names := []string{"a", "maddr"}
+	vals := []struct {
+		eq bool
+		v  string
+	}{{false, ""}, {true, ""}, {true, "v1"}, {true, "\"q;,&? =\\\"x\""}}
+	items := func(wss []string) []TokItem {
+		var out []TokItem
+		for _, w0 := range wss {
+			out = append(out, TokItem{WS0: B(w0)}) // empty item
+		}
+		for _, n := range names {
+			for _, v := range vals {
+				for _, w0 := range wss {
+					for _, w1 := range wss {
+						if !v.eq {
+							out = append(out, TokItem{WS0: B(w0), Name: B(n), WS1: B(w1)})
+							continue
+						}
+						for _, w2 := range wss {
+							for _, w3 := range wss {
+								out = append(out, TokItem{WS0: B(w0), Name: B(n), WS1: B(w1), HasEq: true, WS2: B(w2), Val: B(v.v), WS3: B(w3)})
+							}
+						}
+					}
+				}
+			}
+		}
+		return out
+	}
+	one := items([]string{"", " ", "\r\n\t"})
+	two := items([]string{"", " "})
+	bare := items([]string{""})
+	var lists [][]TokItem
+	lists = append(lists, nil)
+	for _, a := range one {
+		lists = append(lists, []TokItem{a})
+	}
+	for _, a := range two {
+		for _, b := range two {
+			lists = append(lists, []TokItem{a, b})
+		}
+	}
+	for _, a := range bare {
+		for _, b := range bare {
+			for _, c := range bare {
+				lists = append(lists, []TokItem{a, b, c})
+			}
+		}
+	}
+	type mode struct {
+		flags   uint
+		entries []string
+	}
+	modes := []mode{
+		{uint(sipsp.POptParamSemiSepF), []string{"tok", "uriparams"}},
+		{uint(sipsp.POptTokURIParamF), []string{"tok", "uriparams"}},
+		{uint(sipsp.POptTokURIHdrF | sipsp.POptParamAmpSepF), []string{"tok", "urihdrs"}},
+		{uint(sipsp.POptParamSemiSepF | sipsp.POptTokCommaTermF), []string{"tok", "uriparams"}},
+		{uint(sipsp.POptParamSemiSepF | sipsp.POptTokSpTermF), []string{"tok", "uriparams"}},
+		{uint(sipsp.POptParamSemiSepF | sipsp.POptTokQmTermF), []string{"tok"}},
+	}
+	idx := 0
+	for _, its := range lists {
+		for _, m := range modes {
+			_, term := tokSepTerm(sipsp.POptFlags(m.flags))
+			type tv struct{ term, spws string }
+			terms := []tv{{"eoh", ""}, {"end", ""}}
+			if term != 0 {
+				terms = append(terms, tv{"term", ""})
+			}
+			if sipsp.POptFlags(m.flags)&sipsp.POptTokSpTermF != 0 {
+				terms = append(terms, tv{"sp", " "}, tv{"sp", "\t"}, tv{"sp", " \t"})
+			}
+			for _, tm := range terms {
+				idx++
+				if idx%nshards != shard {
+					continue
+				}
+				l := normaliseTokList(TokListSpec{Flags: m.flags, Items: append([]TokItem{}, its...), Term: tm.term, Tail: B("X"), SpWS: B(tm.spws)})
+				n := len(l.Render())
+				for _, entry := range m.entries {
+					for _, pcap := range []int{1, 10} {
+						if entry == "tok" && pcap != 1 {
+							continue
+						}
+						c := CaseTokList{L: l, Entry: entry, PCap: pcap, Inject: -1}
+						cuts := []int{0, n / 2}
+						if allCuts {
+							cuts = cuts[:1]
+							for k := 1; k < n; k++ {
+								cuts = append(cuts, k)
+							}
+						}
+						for _, k := range cuts {
+							c.Cut = k
+							if !emit(c) {
+								return
+							}
+						}
+					}
+				}
+			}
+		}
+	}
 }
